@@ -88,6 +88,7 @@ def enum_members(relpath, clsname):
         raise
     out = []
     for st in cls.body:
-        if isinstance(st, ast.Assign) and len(st.targets) == 1 and isinstance(st.targets[0], ast.Name):
+        if isinstance(st, ast.Assign) and len(st.targets) == 1 and isinstance(st.targets[0], ast.Name) \
+                and not st.targets[0].id.startswith('_'):
             out.append(st.targets[0].id)
     return out
